@@ -349,7 +349,7 @@ def arrayOp (s : St) (op : String) (a : Arr) (k : Int) (args : List Int) : St ×
     withSlot s j fun o =>
       if j == k then (s, "bad-op") else
       let m := o.len
-      if E != 0 && m < n then (s, "short") else
+      if (E != 0 && m < n) || m == 0 then (s, "short") else
       match visit emptyGuard a with
       | .err => (s, "err") | .trap => (s, "trap")
       | .ok vis =>
